@@ -108,6 +108,20 @@ def run(ctx):
                      a=dict(writes=[20000], shutdown=True), b=dict(writes=[], shutdown=True, rcvbuf=rb, read_start_ms=400),
                      b2a=dict(rules=[dict(kind='ack', nth=k, act='drop')]), tag='zerowin-rb%d-dropack%d' % (rb, k))
             scs.append(s)
+    # ---- "all configurations as in C01": initial sequence numbers next to 2^32 / 2^31.  The RECEIVER's window edges straddle the
+    #      wrap point (small receive buffer, the sender's ISS a few thousand below it), loss-free: the window must keep re-opening and
+    #      the transfer must complete; and a FIN whose sequence number is exactly 0 / 2^31
+    kk = 0
+    for hi in (0xffff, 0x7fff):
+        for below in ((1500, 6000) if not ctx.thorough() else (1500, 3000, 6000, 12000)):
+            kk += 1
+            scs.append(dict(v=4 if kk % 2 else 6, mtu=576 if kk % 2 else 1280, sack=(kk % 2 == 0), cc='', sync=False, deadline_ms=45000, seed=kk, flags={},
+                            tag='wrap-rcvwin%d-iss%04x%04x' % (kk, hi, 0x10000 - below),
+                            a=dict(writes=[20000], shutdown=True, iss=[hi, 0x10000 - below]),
+                            b=dict(writes=[], shutdown=True, rcvbuf=rng.choice([1000, 2000, 2500]), read_delay_us=300), a2b=dict(), b2a=dict()))
+        scs.append(dict(v=4, mtu=1500, sack=True, cc='', sync=False, deadline_ms=30000, seed=kk, flags={}, tag='wrap-fin-at-zero-%04x' % hi,
+                        a=dict(writes=[700], shutdown=True, iss=[hi, 0x10000 - 701]), b=dict(writes=[300], shutdown=True),
+                        a2b=dict(rules=[dict(kind='fin', nth=1, act='drop')]), b2a=dict()))
     # ---- the peer half-closes first, then more data is owed to it than its window takes while its application reads late
     for k, (rb, tot) in enumerate([(2000, 20000), (4096, 30000), (1000, 5000)][:ctx.pick(2, 3)]):
         scs.append(dict(v=4, mtu=1500, sack=True, cc='', deadline_ms=45000, seed=k + 1, flags={}, tag='halfclose-then-big-%d' % k,
